@@ -58,6 +58,8 @@ def run(tier, seed, prop='C01', units=('Gillespie_SIR',), fast=True, sis=False):
     if sis:
         jobs += util.jobs_for(reg_fast_sis, tier=tier)
     rep.add_unit_results(util.run_jobs(jobs))
+    if prop in ('C01', 'C02') and any(u.startswith('Gillespie') for u in units):
+        util.listdict_dependency(rep, tier)
     rep.assumptions += ASSUME
     if fast:
         rep.assumptions += [
